@@ -561,6 +561,31 @@ var lbConstReviewed = map[string]string{
 	"constindex|notations/jschema/internal/schema/constraint.parseBytes|b[23]":                           "same: len(b) == 36",
 }
 
+// lbConstShape: the conditions a reviewed read stood under when it was reviewed (where the reason
+// depends on them). A read that has moved out from under its guard is reported again.
+var lbConstShape = map[string]string{
+	"constindex|notations/jschema/internal/schema/constraint.(*TypesList).AddNameWithASTNode|name[0]": ".hasUserTypes=false",
+}
+
+// guardShape lists the branch outcomes that dominate an instruction (condition, outcome).
+func guardShape(ins ssa.Instruction) string {
+	var parts []string
+	b := ins.Block()
+	for d := b.Idom(); d != nil; d = d.Idom() {
+		ifi, ok := d.Instrs[len(d.Instrs)-1].(*ssa.If)
+		if !ok || len(d.Succs) != 2 {
+			continue
+		}
+		t, f := d.Succs[0].Dominates(b), d.Succs[1].Dominates(b)
+		if t == f {
+			continue
+		}
+		parts = append(parts, fmt.Sprintf("%s=%v", describeValue(ifi.Cond), t))
+	}
+	sort.Strings(parts)
+	return strings.Join(parts, ",")
+}
+
 func runLBConst(c *load.Ctx, r *report.RuleResult) {
 	counts := map[string]int{}
 	for _, fn := range c.ModuleFunctions() {
@@ -602,6 +627,12 @@ func runLBConst(c *load.Ctx, r *report.RuleResult) {
 				if lenGuarded(ins, base, k.Int64()) {
 					r.OK(key, c.Pos(ins.Pos()), "dominated by a length test")
 				} else if reason, ok := lbConstReviewed[key]; ok {
+					if want, has := lbConstShape[key]; has {
+						if got := guardShape(ins); got != want {
+							r.Bad(key, c.Pos(ins.Pos()), fmt.Sprintf("the read was reviewed under the guard [%s]; it now stands under [%s], so the reason (%s) no longer covers it", want, got, reason))
+							continue
+						}
+					}
 					r.OK(key, c.Pos(ins.Pos()), "reviewed: "+reason)
 				} else {
 					r.Bad(key, c.Pos(ins.Pos()), fmt.Sprintf("reads element %d without a dominating test that the length exceeds %d: an empty or short value panics with index out of range", k.Int64(), k.Int64()))
@@ -1692,8 +1723,8 @@ func runOR8(c *load.Ctx, r *report.RuleResult) {
 }
 
 func init() {
-	register(&Rule{ID: "EN-1", Min: 2, Run: runEN1,
-		Doc: "the value list of an enum rule only grows, one entry per literal or standalone comment: in rules/enum every store to Enum.values is an append onto the whole current list, and the only field of an entry written afterwards is its Comment — an entry is never removed, replaced or re-ordered, so Values() and GetAST() list the literals in source order"})
+	register(&Rule{ID: "EN-1", Min: 4, Run: runEN1,
+		Doc: "the value list of an enum rule only grows, one entry per literal or standalone comment: in rules/enum every store to Enum.values is an append onto the whole current list, and the only field of an entry written afterwards is its Comment — an entry is never removed, replaced or re-ordered, and the literal recorded in an entry is the text of its lexeme as it is, so Values() and GetAST() list the literals as written, in source order"})
 }
 
 func runEN1(c *load.Ctx, r *report.RuleResult) {
@@ -1767,6 +1798,38 @@ func runEN1(c *load.Ctx, r *report.RuleResult) {
 					}
 				} else if ia, ok := sto.Addr.(*ssa.IndexAddr); ok && isValuesLoad(ia.X) {
 					r.Bad("enum-entry|"+load.FuncKey(fn)+"|whole", c.Pos(sto.Pos()), "an entry already in the list is replaced")
+				}
+			}
+		}
+	}
+	// what an entry says its literal is: the text of the lexeme, as it is
+	valueT := namedType(c, "rules/enum", "Value")
+	for _, fn := range c.ModuleFunctions() {
+		if load.FuncPkgRel(fn) != "rules/enum" || valueT == nil {
+			continue
+		}
+		for _, b := range fn.Blocks {
+			for _, ins := range b.Instrs {
+				sto, ok := ins.(*ssa.Store)
+				if !ok {
+					continue
+				}
+				fa, ok := sto.Addr.(*ssa.FieldAddr)
+				if !ok || !types.Identical(derefType(fa.X.Type()), valueT) || fieldName(fa.X.Type(), fa.Field) != "Value" {
+					continue
+				}
+				key := "enum-literal|" + load.FuncKey(fn)
+				v := sto.Val
+				asIs := false
+				if call, ok := v.(*ssa.Call); ok {
+					if sc := call.Call.StaticCallee(); sc != nil && sc.Name() == "Value" && load.FuncPkgRel(sc) == "internal/lexeme" {
+						asIs = true
+					}
+				}
+				if asIs {
+					r.OK(key, c.Pos(sto.Pos()), "the literal of an entry is the lexeme's text as it is")
+				} else {
+					r.Bad(key, c.Pos(sto.Pos()), "the literal of an entry is "+describeValue(v)+", not the text of the lexeme as it was written: Values() and GetAST() no longer list what the rule says, and the named rule compares differently from its inline spelling")
 				}
 			}
 		}
